@@ -11,6 +11,7 @@ SMOKE = [
     ('MC_Calendar', 'MC_Calendar_smoke.cfg', None),
     ('Tokenizer', 'MC_Tokenizer_smoke.cfg', None),
     ('Trie', 'MC_Trie_smoke.cfg', None),
+    ('MC_ModelCache', 'MC_ModelCache_prefixcode.cfg', 'ReturnedForKey'),
 ]
 
 
